@@ -106,6 +106,15 @@ def _make(conv, shape, holes, skew, mesh_opts=None):
             ds = builders.cf2d(ny, nx, lat=lat, lon=lon, **kw) if conv == 'cf2d' else builders.shoc_simple(ny, nx, lat=lat, lon=lon, **kw)
             return ds, (CFGrid2D(ds) if conv == 'cf2d' else ShocSimple(ds))
         REF['corners'] = (lonb, latb)
+        if conv == 'cf2d' and (mesh_opts or {}).get('rotated'):
+            # a rotated-pole file: 1-D axes (standard names grid_latitude / grid_longitude) stored ahead of the true 2-D
+            # latitude and longitude; the convention is the one the library detects by itself
+            import xarray
+            ds = builders.cf2d(ny, nx, lat=lat, lon=lon, lat_bounds=latb, lon_bounds=lonb, as_coords=False)
+            axes = {'rlat': xarray.Variable(('y',), numpy.arange(ny) * 0.5 - 3.0, {'standard_name': 'grid_latitude', 'units': 'degrees'}),
+                    'rlon': xarray.Variable(('x',), numpy.arange(nx) * 0.5 + 7.0, {'standard_name': 'grid_longitude', 'units': 'degrees'})}
+            ds = xarray.Dataset({**axes, **dict(ds.variables)}, attrs=ds.attrs)
+            return ds, ds.ems
         if conv == 'cf2d':
             ds = builders.cf2d(ny, nx, lat=lat, lon=lon, lat_bounds=latb, lon_bounds=lonb)
             return ds, CFGrid2D(ds)
@@ -278,6 +287,7 @@ def cases(tier):
     for conv, shape, holes, mo in (('cf2d', (3, 4), ((1, 1),), dict(derived=True)), ('shoc_simple', (3, 3), ((0, 1), (2, 1)), dict(derived=True)),
                                    ('cf1d', (2, 3), (), dict(explicit=True)), ('cf1d', (3, 2), (), dict(int_coords=True)),
                                    ('cf2d', (2, 3), (), dict(misdim=True)), ('shoc_simple', (3, 2), (), dict(misdim=True)),
+                                   ('cf2d', (2, 3), (), dict(rotated=True)),
                                    # SHOC standard with the longitude of the face grid stored (i, j) next to a latitude stored (j, i)
                                    ('shoc_standard', (2, 3), (), dict(x_transposed=('face',))), ('shoc_standard', (3, 2), ((0, 0),), dict(x_transposed=('face', 'left')))):
         yield Case(f'{conv}:{shape[0]}x{shape[1]}:holes{len(holes)}:{"+".join(mo)}:get_index_for_point', body,
